@@ -45,7 +45,7 @@ CFG = {
                  "C09_views_canonical", "C09_views_only_used", "C09_same_bytes", "C09_same_bytes_history", "C09_calc_preimage",
                  "C09_aux", "C09_stale_hash_not_detected", "C09_calc_noop_keeps_hash", "C09_wf_invariant",
                  "C09_slices_sound", "C09_same_bytes_history_bytes", "C09_same_bytes_additive", "C09_aux_history",
-                 "C09_aux_format_flag", "C09_aux_wire_reencode", "C09_tx_view_sound", "C09_judge_accepts_model"],
+                 "C09_aux_format_flag", "C09_aux_wire_reencode", "C09_tx_view_sound", "C09_judge_accepts_model", "C09_preimage_spec_with", "C09_stale_lang_refuted", "C09_calc_preimage_gen", "C09_entries_langs_model", "C09_same_bytes_entries"],
     "allowed_axioms": [],
     "compare": _compare,
     "nontrivial": _nontrivial,
